@@ -158,4 +158,65 @@ theorem searchLoop_congr (os : Nat) (bs bs' : List Nat) (key : Nat) :
       rw [ih ((l + h) / 2 + 1) h hk, ih l ((l + h) / 2) (fun j hj => hk j (by omega))]
     · simp [hlh]
 
+/-! ### the journal file -/
+
+/-- a write at the end of the file is an append -/
+theorem writeAt_end (bs d : List Nat) : writeAt bs bs.length d = bs ++ d := by
+  unfold writeAt
+  simp
+
+theorem beBytes_length (n v : Nat) : (beBytes n v).length = n := by
+  induction n generalizing v with
+  | zero => rfl
+  | succ n ih => simp [beBytes, ih]
+
+theorem beNat_append_one (a : List Nat) (b : Nat) : beNat (a ++ [b]) = beNat a * 256 + b := by
+  unfold beNat; simp [List.foldl_append]
+
+theorem beNat_beBytes (n v : Nat) : beNat (beBytes n v) = v % 256 ^ n := by
+  induction n generalizing v with
+  | zero => simp [beBytes, beNat, Nat.mod_one]
+  | succ n ih =>
+    rw [beBytes, beNat_append_one, ih, Nat.pow_succ, Nat.mul_comm (256 ^ n) 256, Nat.mod_mul]
+    omega
+
+theorem take_append_len (a b : List Nat) (n : Nat) (h : a.length = n) : (a ++ b).take n = a := by
+  subst h; simp
+
+theorem drop_append_len (a b : List Nat) (n : Nat) (h : a.length = n) : (a ++ b).drop n = b := by
+  subst h; simp
+
+/-- a journal made of 8-byte records of ids below 2^64 reads back as exactly those ids -/
+theorem journalKeys_flatMap (ks : List Nat) (hk : ∀ k ∈ ks, k < 2 ^ 64) :
+    ∀ fuel, ks.length < fuel → journalKeys fuel (ks.flatMap (beBytes 8)) = ks := by
+  induction ks with
+  | nil => intro fuel hf; cases fuel with
+    | zero => omega
+    | succ f => simp [journalKeys]
+  | cons k rest ih =>
+    intro fuel hf
+    cases fuel with
+    | zero => omega
+    | succ f =>
+      have hl : (beBytes 8 k).length = 8 := beBytes_length 8 k
+      have ht : (beBytes 8 k ++ rest.flatMap (beBytes 8)).take 8 = beBytes 8 k := by
+        exact take_append_len _ _ 8 hl
+      have hd : (beBytes 8 k ++ rest.flatMap (beBytes 8)).drop 8 = rest.flatMap (beBytes 8) := by
+        exact drop_append_len _ _ 8 hl
+      simp only [List.flatMap_cons, journalKeys, ht, hd, hl]
+      have : beNat (beBytes 8 k) = k := by
+        rw [beNat_beBytes]; exact Nat.mod_eq_of_lt (hk k (by simp))
+      simp [this]
+      exact ih (fun x hx => hk x (by simp [hx])) f (by simp at hf; omega)
+
+theorem ecjKeys_flatMap (ks : List Nat) (hk : ∀ k ∈ ks, k < 2 ^ 64) :
+    ecjKeys (ks.flatMap (beBytes 8)) = ks := by
+  unfold ecjKeys
+  apply journalKeys_flatMap ks hk
+  have : ∀ l : List Nat, (l.flatMap (beBytes 8)).length = 8 * l.length := by
+    intro l; induction l with
+    | nil => rfl
+    | cons a r ih => simp [List.flatMap_cons, beBytes_length, ih]; omega
+  rw [this]; omega
+
 end SwV.Lemmas.C07
